@@ -191,6 +191,9 @@ def limited(seconds, f, *args):
         signal.signal(signal.SIGALRM, old)
 
 
+NUMERIC_TROUBLE = (OverflowError, ZeroDivisionError, ValueError, TypeError, mpmath.libmp.NoConvergence)
+
+
 class Ref:
     def __init__(self, env, eps=0):
         self.env, self.clean, self.big, self.acot0 = env, True, M.mpf(1), False
@@ -411,13 +414,13 @@ def oracle_(case, obs):
         ref = Ref(env)
         try:
             want = ref.ev(t)
-        except Undefined:
+        except (Undefined,) + NUMERIC_TROUBLE:
             continue
         if not isinstance(want, (bool, str)):
             # ill-conditioned at this point (next to a pole, catastrophic cancellation): double rounding decides
             try:
                 w2 = Ref(env, 1e-14).ev(t)
-            except Undefined:
+            except (Undefined,) + NUMERIC_TROUBLE:
                 continue
             if isinstance(w2, (bool, str)) or abs(w2 - want) > M.mpf(10) ** -10 * ref.big:
                 continue
@@ -429,7 +432,7 @@ def oracle_(case, obs):
                 r2 = Ref(env)
                 try:
                     r2.ev(seen)
-                except Undefined:
+                except (Undefined,) + NUMERIC_TROUBLE:
                     continue
                 if not r2.clean:
                     continue
